@@ -53,11 +53,22 @@ import fw
 
 ID = 'C14'
 LEVEL = 'proof'
-LEAN_TARGETS = ['BareProofs.C14', 'BareProofs.C14Regex']
+LEAN_TARGETS = ['BareProofs.C14', 'BareProofs.C14Regex', 'BareProofs.C14Bridge', 'BareProofs.C14BridgeHostLib']
 DRIVER = 'drv_c14'
 DRIVER_ROOT = 'Drv.C14'
 GEN = ['Regex']
 THEOREMS = [
+
+    # bridge to the execution model (BareProofs/C14Bridge*.lean): the text the machine hosts concatenate / log IS the C14 encoding of the reified value
+    'C14Bridge.valueJson_bridge', 'C14Bridge.valueJson_bridgeF', 'C14Bridge.wf_toJson', 'C14Bridge.wf_of_class',
+    'C14Bridge.valueJson_mirror', 'C14Bridge.valueString_bridge', 'C14Bridge.valueString_total', 'C14Bridge.strOf_integral',
+    'C14Bridge.strOf_container', 'C14Bridge.valueJson_none_of_cycle', 'C14Bridge.valueString_none_of_cycle', 'C14Bridge.not_reifiable_of_valueString_none',
+    'C14Bridge.machine_add_str', 'C14Bridge.machine_str_add', 'C14Bridge.machine_systemLog', 'C14Bridge.machine_text_cycle',
+    'C14Bridge.machine_json_roundtrip', 'C14Bridge.machine_json_injective', 'C14Bridge.machine_same_text_iff_equal', 'C14Bridge.machine_equal_same_text',
+    'C14Bridge.machine_keys_sorted', 'C14Bridge.machine_integral_no_fraction', 'C14Bridge.equiv_of_cmp_zero', 'C14Bridge.enc_eq_of_cmp_zero',
+    'C14Bridge.cmp_zero_of_equiv', 'C14Bridge.lib_valueString_agrees', 'C14Bridge.lib_valueString_defined', 'C14Bridge.hostLib_valueString_bridge',
+    'C14Bridge.hostLib_add_str', 'C14Bridge.hostLib_str_add', 'C14Bridge.hostLib_systemLog', 'C14Bridge.hostLib_text_cycle',
+    'C14Bridge.hostLib_json_roundtrip', 'C14Bridge.hostLib_json_injective', 'C14Bridge.hostLib_keys_sorted', 'C14Bridge.hostLib_integral_no_fraction',
     'C14.cleanup_regex_is_modelled', 'C14.strings_untouched', 'C14.cleanup_eq_spec', 'C14.string_roundtrip',
     'C14.json_roundtrip', 'C14.json_roundtrip_spec', 'C14.json_injective', 'C14.keys_sorted', 'C14.integral_no_fraction',
     'C14.norm_idem',
